@@ -802,6 +802,8 @@ def w4(e: Engine, rep: Report):
         # the scanning loop in a helper, the reading loop in recv_reply
         oh = common.while_heads(g, g.entry.frame)
         if len(oh) == 1 and any(
+                n0.frame is g.entry.frame and e.call_name(n0) ==
+                'buffered_recv' for n0 in g.calls()) and any(
                 sc.kind == 'loop' and sc.ast is oh[0][1]
                 for n0 in g.nodes if n0.frame is pframe
                 for sc in n0.scopes):
